@@ -433,12 +433,6 @@ func messageCodecs() []*codec {
 				}
 				return ""
 			},
-			size: func(v any) int {
-				if p, ok := v.(*network.Message).Payload.(*transaction.Transaction); ok {
-					return p.Size()
-				}
-				return -1
-			},
 			canon: func(v any) ([]byte, error) {
 				m := v.(*network.Message)
 				c := &network.Message{Command: m.Command, Payload: m.Payload, StateRootInHeader: m.StateRootInHeader}
